@@ -26,7 +26,8 @@ RULE = "corpus files and generated documents after one formatting pass under a r
 
 def rand_opts(rng):
     return dict(indent=rng.randrange(0, 9), spacer=rng.choice([" ", "\t"]), quote=rng.choice(['"', "'"]),
-                newlinechar=rng.choice(["\n", "\r\n"]), end_comment=rng.random() < 0.5, align_values=rng.random() < 0.5)
+                newlinechar=rng.choice(["\n", "\r\n"]), end_comment=rng.random() < 0.5, align_values=rng.random() < 0.5,
+                separate_complex_types=rng.random() < 0.3)
 
 
 def run(ctx):
@@ -44,7 +45,7 @@ def run(ctx):
             d = sweep.fast_loads(t)
         except Exception:
             continue
-        o = rand_opts(rng) if i % 3 else dict(indent=4, spacer=" ", quote='"', newlinechar="\n", end_comment=False, align_values=False)
+        o = rand_opts(rng) if i % 3 else dict(indent=4, spacer=" ", quote='"', newlinechar="\n", end_comment=False, align_values=False, separate_complex_types=False)
         if rt.excluded(d, o["quote"]):
             continue
         pp = PrettyPrinter(**o)
